@@ -3,6 +3,7 @@ package c14
 
 import (
 	"fmt"
+	"runtime"
 	"sort"
 	"strings"
 	"sync"
@@ -671,7 +672,38 @@ type CCase struct {
 	Kind    string
 	Cap     int
 	Threads [][]COp
+	Yield   uint32 // 0: plain blocks; otherwise blocks yield the processor inside Used/Base/NextBase following this pattern
 }
+
+// yieldBlock is a Block whose accessors give up the processor, so that the
+// window between a cache's look-up of a block and what it does next is wide
+// enough for the other goroutines of the history to get in. The cache only
+// sees the Block interface, as it does with the reader's blocks.
+type yieldBlock struct {
+	bgzf.Block
+	pat uint32
+	n   *uint32
+}
+
+func (b *yieldBlock) pause() {
+	k := atomic.AddUint32(b.n, 1)
+	x := uint64(k)*0x9e3779b97f4a7c15 ^ uint64(b.pat)*0xbf58476d1ce4e5b9
+	x ^= x >> 29
+	switch x % 4 {
+	case 0:
+	case 1:
+		runtime.Gosched()
+	case 2:
+		time.Sleep(time.Duration(5+x>>8%40) * time.Microsecond)
+	default:
+		for i := 0; i < 3; i++ {
+			runtime.Gosched()
+		}
+	}
+}
+func (b *yieldBlock) Used() bool      { b.pause(); u := b.Block.Used(); b.pause(); return u }
+func (b *yieldBlock) Base() int64     { b.pause(); v := b.Block.Base(); b.pause(); return v }
+func (b *yieldBlock) NextBase() int64 { b.pause(); v := b.Block.NextBase(); b.pause(); return v }
 
 type cin struct {
 	k    string
@@ -823,6 +855,9 @@ func drawC(t *rapid.T) CCase {
 		}), 3, 6).Draw(t, fmt.Sprintf("t%d", i))
 		c.Threads = append(c.Threads, ops)
 	}
+	if rapid.IntRange(0, 3).Draw(t, "yielding") != 0 {
+		c.Yield = rapid.Uint32Range(1, 1<<20).Draw(t, "yield")
+	}
 	return c
 }
 
@@ -836,6 +871,7 @@ func runC(c CCase, rec *h.Rec) {
 		blk bgzf.Block
 	}
 	id := 0
+	var yields uint32
 	plans := make([][]planned, len(c.Threads))
 	blocks := map[bgzf.Block]int{}
 	for ti, ops := range c.Threads {
@@ -853,6 +889,9 @@ func runC(c CCase, rec *h.Rec) {
 				size := int64(60 + id)
 				p.in.id, p.in.used, p.in.next = id, used, fileBase(o.Base)+size
 				p.blk = pooled(id-1, fileBase(o.Base), size, used, []byte{byte(id)})
+				if c.Yield != 0 {
+					p.blk = &yieldBlock{Block: p.blk, pat: c.Yield, n: &yields}
+				}
 				blocks[p.blk] = id
 			}
 			plans[ti] = append(plans[ti], p)
@@ -924,6 +963,7 @@ func runC(c CCase, rec *h.Rec) {
 		rec.Skip("linearizability check timed out")
 	}
 	rec.Class(c.Kind)
+	rec.ClassIf(c.Yield != 0, "yielding_blocks")
 	rec.NTIf(len(hist) >= 8)
 }
 
